@@ -4,7 +4,8 @@
 //! the server writes with the strict reference decoder.
 
 use crate::common::http::{parse_response, RespParse};
-use crate::common::net::{connect_retry, start_app};
+use crate::common::net::connect_retry;
+use crate::common::net_app::start_app;
 use crate::common::ws::{self, Decoded, RFrame};
 use crate::engine::{hash_of, hex, pt, show, Ctx, Fail, Lcg};
 use humphrey::App;
